@@ -88,7 +88,8 @@ def hSel32R64 : List String → String → Res
   | _, _ => none
 
 /-! C12 -/
-def dedupSorted (l : List Int) : List Int := l.eraseDups
+def sortInts (l : List Int) : List Int := (l.toArray.qsort (· < ·)).toList
+def dedupSorted (l : List Int) : List Int := (sortInts l).eraseDups
 
 /-- spec of `Of`: word count and exactly the listed bits -/
 def ofSpecOK (ps : List Int) (n : Option Int) (impl : String) : Bool :=
@@ -186,11 +187,9 @@ def absBuilder : List BOp → Int → List Int → List (Int × List Int)
       let off' := if off ≤ pos then pos + 1 else off
       (off', s') :: absBuilder r off' s'
 
-def sortInts (l : List Int) : List Int := (l.toArray.qsort (· < ·)).toList
-
 def builderSpecOK (ops : List BOp) (impl : String) : Bool :=
   let abs := absBuilder ops 0 []
-  let outs := impl.splitOn ";"
+  let outs := splitNE impl ";"
   outs.length == abs.length &&
   (List.zipWith (fun (o : String) (a : Int × List Int) =>
     match o.splitOn ":" with
